@@ -23,7 +23,7 @@ CLAIM = {
  "C15": "Lean theorems: the line counter is EXACT for every input (curLine = 1 + line feeds consumed so far, part of the lexer invariant of Theorem A); a token inside a tag carries the line it STARTS on (1 + line feeds in front of its first byte, after whitespace and # comments), whatever its look-ahead consumed; parser messages (incl. bad literals) carry the current token's line; every runtime error leaving compile carries a line; a completed statement is no longer blamed while a failed one stays current. Partial: shift invariance as a two-run statement (C15_shift) is checked by the oracle (it follows informally from the exact-counter theorems); multi-line tags are known findings.",
  "C16": "Lean theorems about evalUserFunction's model: arity error, arguments evaluated in the caller's scope before any binding, body in a fresh child with exactly the parameters bound, the call's value is never a return wrapper and equals the returned value (also through nested blocks), statements after the reached return are not evaluated.",
  "C17": "Lean theorems: a block helper receives what its block renders to (evaluated once, in the given context, through the sink); no block ⇒ error; contentFor emits nothing and only stores the block; what partial/contentOf/block helpers return is inserted unescaped exactly once; missing contentOf ⇒ error. Partial: the inline equivalence over all bodies is decided by the oracle.",
- "C18": "Lean theorems over the TRANSLATED character classes (separators are exactly space/tab/LF/CR; '-' and '.' fuse with identifiers/numbers — the stated exception; punctuation never fuses) and the lexer/parser models (whitespace skipping, comment end, tag delimiters and ';' between statements are skipped). Partial: Theorems B/C (layout independence for all programs) are decided by exhaustive correspondence and the metamorphic oracle.",
+ "C18": "Lean theorems over the TRANSLATED character classes (separators are exactly space/tab/LF/CR; '-' and '.' fuse with identifiers/numbers — the stated exception; punctuation never fuses) and two global theorems about the scanner model: SUFFIX DETERMINISM (inside a tag the token type and text, and what the scanner sees next, depend only on the bytes from the cursor on — for any two inputs, offsets and lines) and LAYOUT INSIGNIFICANCE (any run of blanks, line ends and # comments in front of a token changes neither the token nor what follows; also across two templates). Parser half: tag delimiters and ';' between statements are skipped (step theorems). Partial: the lift from tokens to whole programs (layout independence of parse results and of rendering) is decided by exhaustive correspondence and the metamorphic oracle.",
  "C19": "Lean theorems over the TRANSLATED iterator code of both shipped copies: range/between/until yield exactly the documented interval and then nil, for ALL int64 arguments including the extremes; the copies are equal; groupBy's partition laws (concatenation, ≤ n groups, no empty group, equal sizes but the last) for every list and n.",
  "C20": "Lean theorems: truncate identity / shape / length bound for all strings, sizes (incl. ≤ 0) and trails; htmlEscape emits none of < > ' \" and un-escapes to its input; jsEscape (ASCII) emits none of < > & = LF CR. The escapers and UTF-8 decoding are a MODEL of the Go standard library (tied by correspondence and the oracle); toJSON is oracle-only.",
 }
